@@ -193,6 +193,30 @@ fn checker(acc: &mut Acc, input: &[u8]) {
 	}
 }
 
+/// Code map of a document parsed with the flexible options (the property speaks of any successful parse).
+/// Returns whether the document is strict-valid.
+pub fn lenient_property(text: &str) -> Result<bool, String> {
+	use json_syntax::Parse;
+	let chars: Vec<char> = text.chars().collect();
+	let r = ref_parse(&chars, true);
+	if r.syntax_err.is_some() {
+		return Err("harness: generated lenient document is not grammatical".into());
+	}
+	let doc = r.doc.as_ref().unwrap();
+	let off = crate::refjson::utf8_offsets(&chars);
+	let expected: Vec<(usize, usize, usize)> = doc.frags.iter().map(|f| (off[f.start], off[f.end], f.volume)).collect();
+	let flexible = json_syntax::parse::Options::flexible();
+	for (name, res) in [("parse_str_with(flexible)", Value::parse_str_with(text, flexible)), ("parse_slice_with(flexible)", Value::parse_slice_with(text.as_bytes(), flexible))] {
+		let (_, cm) = res.map_err(|e| format!("SKIP: the parser rejected a document that is valid under the flexible options (C12's business) [{name}: {e:?}]"))?;
+		let got = crate::entry::codemap_triples(&cm);
+		if got != expected {
+			let i = got.iter().zip(&expected).position(|(a, b)| a != b).unwrap_or(got.len().min(expected.len()));
+			return Err(format!("{name}: code map has {} entries, the document {} fragments; first difference at entry {i}: got (start, end, volume) {:?}, the fragment is {:?}", got.len(), expected.len(), got.get(i), expected.get(i)));
+		}
+	}
+	Ok(r.events.is_empty())
+}
+
 pub fn run(ctx: &mut Ctx) {
 	let rule_nt = "non-trivial = contains an empty container, an escape, a multi-byte character or nesting >= 2";
 	if ctx.wants("F1_valid_char_documents") {
@@ -208,6 +232,29 @@ pub fn run(ctx: &mut Ctx) {
 		tokens.push("\t\r".to_string());
 		let acc = pf::enum_token_seqs(&tokens, ntok, &checker);
 		ctx.add(acc.into_fam("F2_valid_token_documents", &format!("every sequence of <= {ntok} tokens over 17 tokens (3 of them whitespace, one string with a 2-byte character and an escape); {rule_nt}"), true, CLASSES, &json!({})));
+	}
+	if ctx.wants("X_lenient_documents") {
+		let n = ctx.pick(40_000, 600_000);
+		let fam = Fam::new("X_lenient_documents", "proptest: rendered trees with unpaired / lone surrogate escapes injected into string literals (values and keys, also right before the closing quote), parsed with the flexible options through parse_str_with and parse_slice_with: a successful parse under any options must return exactly one entry per fragment with the exact span and volume (reference fragment table); a rejection is C12's business (excluded); non-trivial = the document is not strict-valid", false);
+		let fam = run_proptest(
+			ctx,
+			fam,
+			n,
+			|| (gen::arb_container_value(gen::ValueCfg { depth: 3, width: 4, dup_keys: true, big_numbers: false }), gen::arb_choices(), proptest::collection::vec((proptest::prelude::any::<u16>(), super::c12::arb_elements()), 1..=3), proptest::prelude::any::<bool>()),
+			|(v, ch, inj, at_end)| {
+				let text = super::c11::lenient_text(v, ch, inj, *at_end);
+				match lenient_property(&text) {
+					Ok(strict) => Outcome::ok(!strict, vec![if strict { "strict_valid" } else { "needs_lenient_options" }]),
+					Err(m) => Outcome::fail(m),
+				}
+			},
+			|(v, ch, inj, at_end)| {
+				let mut j = crate::parsefam::case_json(super::c11::lenient_text(v, ch, inj, *at_end).as_bytes(), &json!({}));
+				j["lenient"] = json!(true);
+				j
+			},
+		);
+		ctx.add(fam);
 	}
 	if ctx.wants("G_rendered_trees") {
 		let n = ctx.pick(100_000, 1_500_000);
@@ -237,6 +284,10 @@ pub fn run(ctx: &mut Ctx) {
 }
 
 pub fn replay(_family: &str, case: &J) -> Result<(), String> {
+	if case["lenient"] == json!(true) {
+		let text = String::from_utf8(dec_bytes(case)).map_err(|e| e.to_string())?;
+		return lenient_property(&text).map(|_| ());
+	}
 	let input = dec_bytes(case);
 	let text = String::from_utf8(input).map_err(|e| e.to_string())?;
 	property(&text, true).map(|_| ())
